@@ -1019,6 +1019,152 @@ def _bh_is_empty(it, cal, args):
     return B(len(it.load(args[0]).fields) == 0)
 
 
+# ----------------------------------------------------------------------------------------- VecDeque (concrete shape)
+
+
+@model("VecDeque::new")
+def _vd_new(it, cal, args):
+    return Agg("VecDeque", [])
+
+
+@model("VecDeque::with_capacity")
+def _vd_with_capacity(it, cal, args):
+    return Agg("VecDeque", [], meta={"requested": args[0]})
+
+
+@model("VecDeque::capacity")
+def _vd_capacity(it, cal, args):
+    # std only promises capacity() >= max(len, requested capacity) (usize::MAX for zero-sized elements): symbolic
+    d = it.load(args[0])
+    c = it.fresh("vdcap", "usize")
+    it.assume(z3.UGE(c.v, len(d.fields)))
+    req = d.meta.get("requested") if isinstance(d.meta, dict) else None
+    if req is not None:
+        it.assume(z3.UGE(c.v, req.v))
+    return c
+
+
+@model("VecDeque::len")
+def _vd_len(it, cal, args):
+    return I(len(it.load(args[0]).fields), "usize")
+
+
+@model("VecDeque::is_empty")
+def _vd_is_empty(it, cal, args):
+    return B(len(it.load(args[0]).fields) == 0)
+
+
+@model("VecDeque::push_back")
+def _vd_push_back(it, cal, args):
+    it.load(args[0]).fields.append(args[1])
+    return unit()
+
+
+@model("VecDeque::push_front")
+def _vd_push_front(it, cal, args):
+    it.load(args[0]).fields.insert(0, args[1])
+    return unit()
+
+
+@model("VecDeque::pop_front")
+def _vd_pop_front(it, cal, args):
+    d = it.load(args[0])
+    return some(d.fields.pop(0)) if d.fields else none()
+
+
+@model("VecDeque::pop_back")
+def _vd_pop_back(it, cal, args):
+    d = it.load(args[0])
+    return some(d.fields.pop()) if d.fields else none()
+
+
+@model("VecDeque::clear")
+def _vd_clear(it, cal, args):
+    d = it.load(args[0])
+    for x in d.fields:
+        it.drop_value(x)
+    del d.fields[:]
+    return unit()
+
+
+@model("VecDeque::truncate")
+def _vd_truncate(it, cal, args):
+    d = it.load(args[0])
+    if it.branch(z3.UGE(args[1].v, len(d.fields)), "truncate-noop"):
+        return unit()
+    n = it.concretize(args[1], "truncate", limit=len(d.fields) + 1)
+    del d.fields[n:]
+    return unit()
+
+
+@model("VecDeque::front", "VecDeque::front_mut")
+def _vd_front(it, cal, args):
+    p = it.deref(args[0])
+    d = it.read_loc(p.cell, p.path)
+    return some(Ptr(p.cell, p.path + (("i", 0),), "ref")) if d.fields else none()
+
+
+@model("VecDeque::back", "VecDeque::back_mut")
+def _vd_back(it, cal, args):
+    p = it.deref(args[0])
+    d = it.read_loc(p.cell, p.path)
+    return some(Ptr(p.cell, p.path + (("i", len(d.fields) - 1),), "ref")) if d.fields else none()
+
+
+@model("VecDeque::get", "VecDeque::get_mut")
+def _vd_get(it, cal, args):
+    p = it.deref(args[0])
+    d = it.read_loc(p.cell, p.path)
+    n = it.concretize(args[1], "get", limit=32)
+    return some(Ptr(p.cell, p.path + (("i", n),), "ref")) if 0 <= n < len(d.fields) else none()
+
+
+@model("<VecDeque as Index>::index", "<VecDeque as IndexMut>::index_mut")
+def _vd_index(it, cal, args):
+    p = it.deref(args[0])
+    d = it.read_loc(p.cell, p.path)
+    n = it.concretize(args[1], "index", limit=32)
+    if not 0 <= n < len(d.fields):
+        raise RustPanic(f"index out of bounds: the len is {len(d.fields)} but the index is {n}", "VecDeque::index")
+    return Ptr(p.cell, p.path + (("i", n),), "ref")
+
+
+@model("VecDeque::remove")
+def _vd_remove(it, cal, args):
+    d = it.load(args[0])
+    n = it.concretize(args[1], "remove", limit=32)
+    return some(d.fields.pop(n)) if 0 <= n < len(d.fields) else none()
+
+
+@model("VecDeque::insert")
+def _vd_insert(it, cal, args):
+    d = it.load(args[0])
+    n = it.concretize(args[1], "insert", limit=32)
+    d.fields.insert(n, args[2])
+    return unit()
+
+
+@model("core::bool::<impl bool>::then_some", "bool::then_some")
+def _then_some(it, cal, args):
+    if it.branch(args[0], "then_some"):
+        return some(args[1])
+    return none()
+
+
+@model("Option::replace")
+def _opt_replace(it, cal, args):
+    old = it.load(args[0])
+    it.store(args[0], some(args[1]))
+    return old
+
+
+@model("Option::insert")
+def _opt_insert(it, cal, args):
+    it.store(args[0], some(args[1]))
+    p = it.deref(args[0])
+    return Ptr(p.cell, p.path + (("f", 0),), "ref")
+
+
 # ----------------------------------------------------------------------------------------- panics
 
 
